@@ -26,6 +26,10 @@ import (
 const procMargin = 150 * time.Millisecond
 const exitMargin = 500 * time.Millisecond
 
+// an exit through the interrupt timeout this early after the signal cannot be the 3 s / 30 s timeout of cli.go
+// (Bridge.Cli.cli_timeouts_ge: every regenerated timeout is at least 3000 ms)
+const earlyTimeoutMs = 2500
+
 var (
 	buildOnce sync.Once
 	buildPath string
@@ -83,6 +87,8 @@ type procResult struct {
 	exit         int
 	// the process said "timeout exceeded" (it exited through the interrupt timeout, without the final flush)
 	timedOut bool
+	// milliseconds between the signal and the moment the process was gone
+	sinceSignal int
 	// requests the target had answered at least exitMargin before the process was gone
 	servedExit   int
 	servedBefore int
@@ -189,6 +195,7 @@ log:
 		res.exit = ee.ExitCode()
 	}
 	res.timedOut = strings.Contains(stderr.String(), "timeout exceeded")
+	res.sinceSignal = int(texit.Sub(tsig) / time.Millisecond)
 	tg.mu.Lock()
 	res.started = tg.started
 	for _, d := range tg.done {
@@ -270,6 +277,12 @@ func runProc(kv map[string]string) string {
 		// an exit through the interrupt timeout skips the final flush: then everything answered until (shortly
 		// before) the exit counts, not only what was answered before the signal
 		failing := r.bad != 0 || r.lines < r.servedBefore || (r.timedOut && r.lines < r.servedExit)
+		if failing && r.timedOut && r.sinceSignal < earlyTimeoutMs && r.lines < r.servedBefore {
+			// the process itself says it gave up waiting, long before the shortest interrupt timeout (3 s) can have
+			// elapsed, and answered requests are missing: nothing about this depends on the load of the machine
+			failed, streak = failed+1, 3
+			break
+		}
 		if !failing {
 			if failed == 0 {
 				break
@@ -283,5 +296,5 @@ func runProc(kv map[string]string) string {
 	if failed > 0 && streak < 3 {
 		return fmt.Sprintf("inconclusive=loss-in-%d-runs-not-3-in-a-row", failed)
 	}
-	return fmt.Sprintf("exit=%d served_before=%d started=%d lines=%d bad=%d repro=%d tmo=%d served_exit=%d", r.exit, r.servedBefore, r.started, r.lines, r.bad, streak, b2i(r.timedOut), r.servedExit)
+	return fmt.Sprintf("exit=%d served_before=%d started=%d lines=%d bad=%d repro=%d tmo=%d served_exit=%d since=%d", r.exit, r.servedBefore, r.started, r.lines, r.bad, streak, b2i(r.timedOut), r.servedExit, r.sinceSignal)
 }
